@@ -9,6 +9,7 @@ import json, os, re, shutil, subprocess, sys
 VERIF = os.path.dirname(os.path.dirname(os.path.abspath(__file__)))
 SEEDED = os.path.join(VERIF, 'seeded')
 PY = '/venv/bin/python'
+REPO = os.environ.get('VERIF_REPO', '/repo')
 
 
 def sh(cmd, cwd=None, timeout=3000):
@@ -64,8 +65,8 @@ def run(name, checks):
     d = os.path.join(SEEDED, name)
     meta = json.load(open(os.path.join(d, 'meta.json')))
     checks = checks or [meta['property']]
-    assert sh('git -C /repo diff --quiet')[0] == 0, 'repo dirty'
-    rc, out = sh('git -C /repo apply ' + os.path.join(d, 'patch.diff'))
+    assert sh('git -C %s diff --quiet' % REPO)[0] == 0, 'repo dirty'
+    rc, out = sh('git -C %s apply ' % REPO + os.path.join(d, 'patch.diff'))
     assert rc == 0, out
     res = {}
     try:
@@ -75,7 +76,9 @@ def run(name, checks):
             res[c] = {'exit': rc, 'violations': len(re.findall(r'^VIOLATION', out, re.M)), 'keys': sorted(set(keys))[:6]}
             print(c, 'exit', rc, res[c]['keys'][:3])
     finally:
-        sh('git -C /repo checkout -- .')
+        sh('git -C %s checkout -- .' % REPO)
+    if os.environ.get('SEED_NO_RECORD'):
+        return res
     meta.setdefault('checks', {}).update(res)
     meta['detected_by'] = sorted(c for c, r in meta['checks'].items() if r['exit'] == 1)
     json.dump(meta, open(os.path.join(d, 'meta.json'), 'w'), indent=1)
